@@ -23,7 +23,8 @@ SHARDS = {'quick': 16, 'thorough': 64}
 TIMEOUT = {'quick': 1500, 'thorough': 7200}
 MUST_HIT = ['Count.association', 'Count.uniqueness', 'Count.is_consistent', 'Count.restricted-rel',
             'Count.restricted-kind', 'Count.subtype', 'Cli.main-return', 'Cli.process-exit-status',
-            'Cli.bridgepoint-main', 'Count.null-lowercase-unique_id', 'Count.nonzero-association',
+            'Cli.bridgepoint-main', 'Cli.bridgepoint-all-associations-all-classes', 'Cli.bridgepoint-r-k',
+            'Cli.bridgepoint-all-associations-k', 'Cli.bridgepoint-r-all-classes', 'Count.null-lowercase-unique_id', 'Count.nonzero-association',
             'Count.nonzero-uniqueness', 'Count.consistent-model']
 MUST_REACH = ['xtuml/consistency_check.py:check_link_integrity',
               'xtuml/consistency_check.py:check_association_integrity',
@@ -267,8 +268,6 @@ def cli_checks(ctx, rng, schema, pop, st, text, tmpdir, process):
     kinds = [k for k, _ in schema.classes]
     sub_r = [r for r in rels if rng.random() < 0.5]
     sub_k = [k for k in kinds if rng.random() < 0.4]
-    if rng.random() < 0.2 and rels:
-        sub_r = sub_r + [sub_r[0]] if sub_r else sub_r     # the same number twice counts twice
     args = []
     for r in sub_r:
         args += [rng.choice(('-r', '-R')), str(r)]
@@ -339,8 +338,10 @@ def bp_cli(ctx, rng, full, tmpdir, process):
     with open(path, 'w', newline='') as f:
         f.write(text)
     rels = sorted(set(r.rel for r in sub.rops))
-    sub_r = [r for r in rels if rng.random() < 0.3]
-    sub_k = [k for k in BP_KINDS if rng.random() < 0.4]
+    # no restriction at all in a third of the cases, otherwise a random subset
+    sub_r = [r for r in rels if rng.random() < 0.3] if rng.random() < 0.67 else []
+    sub_k = [k for k in BP_KINDS if rng.random() < 0.4] if rng.random() < 0.67 else []
+    ctx.hit('Cli.bridgepoint-%s-%s' % ('r' if sub_r else 'all-associations', 'k' if sub_k else 'all-classes'))
     args = []
     for r in sub_r:
         args += ['-r', str(r)]
